@@ -697,6 +697,10 @@ LitEval(u) ==
                  ELSE IF IsIdStart(u[tk.end + 1]) /\ SpanId(u, tk.end + 1) = Len(u) + 1 THEN R(Undef)   \* 11.2.1 on a Number
                  ELSE [thr |-> "skip"]
 
+(* parseInt / parseFloat applied to a Number: step 1 is ToString (9.8.1) *)
+ParseIntNumP(x, sd)   == ParseInt(NumToStrP(x, sd), Undef)
+ParseFloatNumP(x, sd) == ParseFloat(NumToStrP(x, sd))
+
 (* String(<literal>) and String(parseInt(s, radix)): 9.8.1 applied to the    *)
 (* Number value.  D9B / D92: the implementation carries integers below 2^63  *)
 (* as 64-bit integers, not as doubles; ToString shows all their digits.      *)
